@@ -1053,7 +1053,16 @@ EXPORT errno_t _wcsnorm_compose_s_chk(wchar_t *restrict dest, rsize_t dmax,
             }
         }
 
-        /* output */
+        /* output: room for the starter, the pending marks and the final null? */
+        if (unlikely(dmax < cc_pos + 2)) {
+            if (seq_ext)
+                free(seq_ext);
+            handle_werror(orig_dest, orig_dmax,
+                          "wcsnorm_compose_s: "
+                          "dmax too small",
+                          ESNOSPC);
+            return RCNEGATE(ESNOSPC);
+        }
         _ENC_W16(dest, dmax, cpS); /* starter (composed or not) */
         if (unlikely(!dmax)) {
             if (seq_ext)
